@@ -180,7 +180,7 @@ func (x *Exec) callFunc(fr *Frame, st *State, callee *ssa.Function, args []*Val,
 		return h(x, st, callee, args, pos)
 	}
 	c := x.prog.contractFor(callee)
-	if c != nil && !c.Inline && !(x.job.fn == callee && x.depth == 0) {
+	if c != nil && !c.Inline && c.hasSpec() && !(x.job.fn == callee && x.depth == 0) {
 		return x.callByContract(fr, st, callee, c, args, free, pos)
 	}
 	if len(callee.Blocks) == 0 {
@@ -200,8 +200,10 @@ func (x *Exec) callFunc(fr *Frame, st *State, callee *ssa.Function, args []*Val,
 	}
 	x.depth++
 	x.callStack = append(x.callStack, key)
+	x.siteStack = append(x.siteStack, pos)
 	nf := x.newFrame(callee, args, free, st, fr)
 	rv, rs := x.run(nf, st.clone())
+	x.siteStack = x.siteStack[:len(x.siteStack)-1]
 	x.callStack = x.callStack[:len(x.callStack)-1]
 	x.depth--
 	if rs == nil {
@@ -220,6 +222,9 @@ func (x *Exec) unmodelled(st *State, callee *ssa.Function, args []*Val) *Val {
 // callByContract: assert requires, havoc the callee's write set, assume ensures.
 func (x *Exec) callByContract(fr *Frame, st *State, callee *ssa.Function, c *Contract, args []*Val, free []*Val, pos token.Pos) *Val {
 	c.Bound = true
+	if c.Trusted {
+		x.trusted["TRUSTED-CONTRACT "+jobName(callee)] = true
+	}
 	nf := x.newFrame(callee, args, free, st, fr)
 	nf.contract = c
 	pre := st.clone()
@@ -227,6 +232,7 @@ func (x *Exec) callByContract(fr *Frame, st *State, callee *ssa.Function, c *Con
 	for _, r := range x.evalClauses(nf, st, c.clauses("requires", 0), nil, "requires") {
 		x.oblige(st, "pre("+relName(callee)+")", r.t, pos, r.cl.Src)
 	}
+	_ = 0
 	for _, a := range args {
 		x.checkInv(st, a, pos, "when passed to "+relName(callee))
 	}
